@@ -50,5 +50,11 @@ class FileProxy(io.TextIOBase):
     def flush(self) -> None:
         buffer = self.__buffer
         if buffer:
-            self.__console.print("".join(buffer))
+            output = "".join(buffer)
             del buffer[:]
+            self.__console.print(
+                self.__ansi_decoder.decode_line(output),
+                markup=False,
+                emoji=False,
+                highlight=False,
+            )
